@@ -304,9 +304,12 @@ def r4_reading_empty_raises(ctx):
             if not uses_private:
                 ctx.ok(f.qual, "does not hand out the storage", where=f, node=r)
                 continue
-            guards = [i for i in raising_ifs(f.node) if norm(i.test) in ("self._array is None", "not _is_array_initialized(self._array)", "not isinstance(self._array, np.ndarray)", "not self._array is not None")]
-            gn = [n for i in guards for n in g.nodes_of(i)]
-            ok = bool(gn) and all(g.must_precede(gn, n) for n in g.nodes_of(r))
+            # where the storage is handed out it is KNOWN to be filled - whether the empty case was rejected by
+            # a guard clause in front (`if empty: raise`) or the return sits under the positive test
+            from sa.astutil import knows
+
+            known = enclosing_tests(r, rejections=True)
+            ok = any(knows(known, t_, True) for t_ in ("self._array is not None", "_is_array_initialized(self._array)", "isinstance(self._array, np.ndarray)"))
             ctx.check(ok, f.qual, "empty container raises before the storage is returned" if ok else "an empty container is read without an error (None / stale data is returned)", where=f, node=r)
 
 
